@@ -250,7 +250,11 @@ impl StateMachine<'_> {
                 self.config,
             )
         } else if !self.config.color_only
-            && self.should_handle()
+            // This can be reached in a hunk state (diff -u input, end of input): the decision
+            // must be the one made for the diff header lines, i.e. based on the file style.
+            && !(self.config.file_style.is_raw
+                && self.config.file_style.decoration_style
+                    == crate::style::DecorationStyle::NoDecoration)
             && self.handled_diff_header_header_line_file_pair != self.current_file_pair
         {
             self._handle_diff_header_header_line(self.source == Source::DiffUnified)?;
